@@ -50,6 +50,17 @@ pub fn gen_schema(rng: &mut crate::rng::Rng, p: Profile) -> GS {
   g.schema()
 }
 
+/// one time in five a schema of the hand-written interaction corpus (seeds/*.txt, small fixtures)
+/// instead of a generated one: constructs interact there in ways the generator rarely produces
+pub fn gen_schema_mixed(rng: &mut crate::rng::Rng, p: Profile) -> (GS, bool) {
+  let trees = crate::corpus::trees_for(false);
+  if !trees.is_empty() && rng.chance(1, 5) {
+    (rng.pick(trees).clone(), true)
+  } else {
+    (gen_schema(rng, p), false)
+  }
+}
+
 /// documents for one schema: members, near misses, unrelated
 pub fn gen_docs(g: &GS, rng: &mut crate::rng::Rng, json: bool, n: usize) -> Vec<(DV, &'static str)> {
   let mut out: Vec<(DV, &'static str)> = vec![];
